@@ -195,16 +195,25 @@ func c08Round(c *runner.Ctx, idx uint64) {
 		}
 		return shared[k]
 	}
-	// sequential outcomes for the first environment value only
+	// sequential outcomes for the first environment value only, and only for
+	// every other program: the rest are run for the first time inside the
+	// concurrent phase (whatever a program initialises lazily on its first
+	// run, or on its first failing run, is then initialised concurrently)
 	want := map[*c08Prog][]string{}
-	for _, pr := range pool {
+	fresh := map[*c08Prog]bool{}
+	for i, pr := range pool {
 		w := make([]string, len(shared))
-		for k := 0; k < 3; k++ {
-			w[k] = c08Outcome(SafeRun(pr.prog, envFor(pr, k)))
-			c.Eval(1)
+		if i%2 == 1 {
+			fresh[pr] = true
+		} else {
+			for k := 0; k < 3; k++ {
+				w[k] = c08Outcome(SafeRun(pr.prog, envFor(pr, k)))
+				c.Eval(1)
+			}
 		}
 		want[pr] = w
 	}
+	c.Count("programs_first_run_concurrently", int64(len(fresh)))
 	N := []int{2, 4, 16, 64}[idx%4]
 	M := 4000 / N
 	if c.Thorough() {
@@ -221,12 +230,32 @@ func c08Round(c *runner.Ctx, idx uint64) {
 	var runs, compiles int64
 	var wg sync.WaitGroup
 	start := make(chan struct{})
+	// burst steps: every goroutine makes the same run of a not yet run program
+	// at the same moment (one barrier per step)
+	var burst []*c08Prog
+	for _, pr := range pool {
+		if fresh[pr] && len(burst) < 16 {
+			burst = append(burst, pr)
+		}
+	}
+	bars := make([]sync.WaitGroup, len(burst))
+	for i := range bars {
+		bars[i].Add(N)
+	}
 	for g := 0; g < N; g++ {
 		wg.Add(1)
 		go func(g int, seed uint64) {
 			defer wg.Done()
 			rr := runner.NewRng(seed, uint64(g))
 			<-start
+			for bi, pr := range burst {
+				bars[bi].Done()
+				bars[bi].Wait()
+				k := bi % len(shared)
+				got := c08Outcome(SafeRun(pr.prog, envFor(pr, k)))
+				atomic.AddInt64(&runs, 1)
+				results[g] = append(results[g], obs{pr: pr, k: k, got: got, compile: -1})
+			}
 			for i := 0; i < M; i++ {
 				if i == 0 || rr.Chance(1, 12) {
 					// concurrent Compile sharing option values and the environment
@@ -254,7 +283,11 @@ func c08Round(c *runner.Ctx, idx uint64) {
 	wg.Wait()
 	// sequential outcomes for the environments first used concurrently
 	for _, pr := range pool {
-		for k := 3; k < len(shared); k++ {
+		from := 3
+		if fresh[pr] {
+			from = 0
+		}
+		for k := from; k < len(shared); k++ {
 			want[pr][k] = c08Outcome(SafeRun(pr.prog, envFor(pr, k)))
 			c.Eval(1)
 		}
